@@ -39,7 +39,8 @@ type Model struct {
 	// units (functions by role)
 	ClaimSet    []*ssa.Function // contain claim.Store(true)
 	ClaimClear  []*ssa.Function // contain claim.Store(false), constructor excluded
-	StopUnits   []*ssa.Function // claim-clear units that also invoke the election cancel
+	StopCores   []*ssa.Function // claim-clear units that also invoke the election cancel
+	StopUnits   []*ssa.Function // stop cores and the exported methods that reach one
 	DemoteUnits []*ssa.Function // non-stop claim-clear units
 
 	callers map[*ssa.Function][]CallSite // static call / go / defer sites inside the library
@@ -171,20 +172,31 @@ func buildModel(p *Program) *Model {
 		}
 	}
 
-	// Ctor: function allocating Impl
+	// Ctor: the (single) function allocating Impl
+	var ctors []*ssa.Function
 	for _, f := range m.Funcs {
 		for _, b := range f.Blocks {
 			for _, in := range b.Instrs {
 				if al, ok := in.(*ssa.Alloc); ok && al.Heap {
-					if n := namedOf(al.Type()); n == m.Impl {
-						m.Ctor = f
+					if n := namedOf(al.Type()); n == m.Impl && !containsFn(ctors, f) {
+						ctors = append(ctors, f)
 					}
 				}
 			}
 		}
 	}
-	if m.Ctor == nil {
+	switch len(ctors) {
+	case 0:
 		m.problem("no function allocating %s found", m.ImplName)
+	case 1:
+		m.Ctor = ctors[0]
+	default:
+		m.Ctor = ctors[0]
+		var names []string
+		for _, f := range ctors {
+			names = append(names, shortFn(f))
+		}
+		m.problem("%s is allocated in %d functions (%s): every rule about 'the constructor' (validation before anything else, init-only fields) assumes exactly one", m.ImplName, len(ctors), strings.Join(names, ", "))
 	}
 
 	// fields by accessor: the field an API method loads / stores
@@ -499,12 +511,58 @@ func (m *Model) buildUnits() {
 		if setsFalse && f != m.Ctor {
 			m.ClaimClear = append(m.ClaimClear, f)
 			if callsCancel {
-				m.StopUnits = append(m.StopUnits, f)
+				m.StopCores = append(m.StopCores, f)
 			} else {
 				m.DemoteUnits = append(m.DemoteUnits, f)
 			}
 		}
 	}
+	// stop units: the stop cores (clear the claim and cancel the election) and the API
+	// methods that reach a core through static calls (a shared shutdown helper keeps the
+	// waits and the deletion in the exported methods)
+	m.StopUnits = append(m.StopUnits, m.StopCores...)
+	if m.Impl != nil {
+		ms := m.P.Prog.MethodSets.MethodSet(m.implPtr())
+		for i := 0; i < ms.Len(); i++ {
+			f := m.P.Prog.MethodValue(ms.At(i))
+			if f == nil || f.Blocks == nil || !ms.At(i).Obj().Exported() || containsFn(m.StopUnits, f) {
+				continue
+			}
+			for g := range m.staticReachNoModel(f) {
+				if containsFn(m.StopCores, g) {
+					m.StopUnits = append(m.StopUnits, f)
+					break
+				}
+			}
+		}
+	}
+	sort.Slice(m.StopUnits, func(i, j int) bool { return m.StopUnits[i].Pos() < m.StopUnits[j].Pos() })
+}
+
+// staticReachNoModel: functions reachable through static calls (not go), usable while the model is being built.
+func (m *Model) staticReachNoModel(f *ssa.Function) map[*ssa.Function]bool {
+	seen := map[*ssa.Function]bool{}
+	var walk func(g *ssa.Function)
+	walk = func(g *ssa.Function) {
+		if g == nil || seen[g] || g.Blocks == nil || topFunc(g).Pkg != m.P.Leader {
+			return
+		}
+		seen[g] = true
+		for _, b := range g.Blocks {
+			for _, in := range b.Instrs {
+				if _, isGo := in.(*ssa.Go); isGo {
+					continue
+				}
+				if ci, ok := in.(ssa.CallInstruction); ok {
+					if sc := ci.Common().StaticCallee(); sc != nil {
+						walk(sc)
+					}
+				}
+			}
+		}
+	}
+	walk(f)
+	return seen
 }
 
 func containsFn(fs []*ssa.Function, f *ssa.Function) bool {
